@@ -4,10 +4,13 @@
    they use), for ALL histories of environment steps and requests; real thread
    interleavings finer than those steps, select wake-up order and signal delivery
    are exercised by the correspondence run, not proved.  The key decoder is a
-   parameter; C03 discharges fk_lossless / fk_progress for the model of
-   events.get_key. *)
+   parameter of the general theorems; the C08_real_decoder_* theorems below are
+   their instances for the model of the REAL decoder (events.get_key driven by
+   the find_key loop of _send: find_key_real, Model/InputKeys.v), for every
+   encoding and naming mode, with fk_lossless / fk_progress PROVED
+   (Proofs/InputKeys.v, on top of C03's Proofs/Keys.v): no hypothesis is left. *)
 From Coq Require Import Permutation.
-From Curtsies Require Import Model.Base Gen.Tables Model.Utf8 Model.Keys Model.InputQ Spec.QueueSpec Proofs.InputQ Corr.C08.
+From Curtsies Require Import Model.Base Gen.Tables Model.Utf8 Model.Keys Model.InputQ Model.InputKeys Spec.QueueSpec Proofs.InputQ Proofs.InputKeys.
 Close Scope N_scope.
 Local Open Scope Z_scope.
 
@@ -50,6 +53,44 @@ Theorem C08_events_in_trigger_order :
 Proof. exact events_in_trigger_order. Qed.
 Print Assumptions C08_events_in_trigger_order.
 
+(* ---- the same for the REAL decoder: no hypotheses ------------------------------ *)
+Theorem C08_real_decoder_hypotheses :
+  forall enc mode, fk_lossless (find_key_real enc mode) /\ fk_progress (find_key_real enc mode).
+Proof. intros enc mode. split; [apply find_key_real_lossless|apply find_key_real_progress]. Qed.
+Print Assumptions C08_real_decoder_hypotheses.
+
+Theorem C08_real_decoder_exactly_once :
+  forall enc mode (h : list item) (th : option Z) (ntrig : nat) tr s',
+    run (find_key_real enc mode) th (init ntrig) h = (tr, s') ->
+    let D := outcomes tr in
+    flat_map d_consumed D ++ unproc s' ++ kq s' = g_bytes s' /\
+    flat_map d_ev D ++ qev s' = map snd (g_ev s') /\
+    flat_map d_int D ++ qint s' = map snd (g_int s') /\
+    (forall w, filter (has_when w) (flat_map d_sched D) ++ filter (has_when w) (qsched s')
+               = filter (has_when w) (g_sched s')) /\
+    Permutation (flat_map d_sig D ++ sigints s') (g_sig s').
+Proof. exact real_decoder_exactly_once. Qed.
+Print Assumptions C08_real_decoder_exactly_once.
+
+Theorem C08_real_decoder_bytes_in_order :
+  forall enc mode h th ntrig tr s',
+    run (find_key_real enc mode) th (init ntrig) h = (tr, s') -> no_raise (outcomes tr) ->
+    flat_map d_bytes (outcomes tr) ++ unproc s' ++ kq s' = g_bytes s'.
+Proof. exact real_decoder_bytes_in_order. Qed.
+Print Assumptions C08_real_decoder_bytes_in_order.
+
+Theorem C08_real_decoder_events_in_trigger_order :
+  forall enc mode h th ntrig tr s',
+    run (find_key_real enc mode) th (init ntrig) h = (tr, s') ->
+    (exists Gd Gp, g_ev s' = Gd ++ Gp /\ map snd Gd = flat_map d_ev (outcomes tr) /\ map snd Gp = qev s' /\
+       forall i, filter (fun p => N.eqb (fst p) i) (g_ev s')
+                 = filter (fun p => N.eqb (fst p) i) Gd ++ filter (fun p => N.eqb (fst p) i) Gp) /\
+    (exists Gd Gp, g_int s' = Gd ++ Gp /\ map snd Gd = flat_map d_int (outcomes tr) /\ map snd Gp = qint s' /\
+       forall i, filter (fun p => Nat.eqb (fst p) i) (g_int s')
+                 = filter (fun p => Nat.eqb (fst p) i) Gd ++ filter (fun p => Nat.eqb (fst p) i) Gp).
+Proof. exact real_decoder_events_in_trigger_order. Qed.
+Print Assumptions C08_real_decoder_events_in_trigger_order.
+
 (* with nothing scheduled, None is returned no earlier than the timeout -- whatever
    wakes the request up in between (code as of commit 4c90127) *)
 Theorem C08_none_only_after_timeout :
@@ -76,7 +117,7 @@ Proof. exact old_recompute_refuted. Qed.
    gone; the third byte later comes out as a Meta key. *)
 Example C08_F_C08a_bytes_dropped :
   map (fun e => fst (fst e))
-      (fst (run (C08.find_key_real Utf8 CURTSIES) None (init 0)
+      (fst (run (find_key_real Utf8 CURTSIES) None (init 0)
                 [Env (Arrive [226; 130]%N); Req (Some 0) []; Env (Arrive [172]%N); Req (Some 0) []]))
   = [ORaise ValueError [226; 130]%N; OKey [60; 77; 101; 116; 97; 45; 44; 62]%N [172]%N].
 Proof. vm_compute. reflexivity. Qed.
@@ -85,7 +126,7 @@ Proof. vm_compute. reflexivity. Qed.
    paste event under construction ('a','b','c' here) *)
 Example C08_F_C08b_paste_dropped :
   map (fun e => fst (fst e))
-      (fst (run (C08.find_key_real Utf8 CURTSIES) (Some 1) (init 0)
+      (fst (run (find_key_real Utf8 CURTSIES) (Some 1) (init 0)
                 [Env (Arrive [97; 98; 99; 226; 130]%N); Req (Some 0) []; Env (Arrive [172]%N); Req (Some 0) []]))
   = [ORaise ValueError [97; 98; 99; 226; 130]%N; OKey [60; 77; 101; 116; 97; 45; 44; 62]%N [172]%N].
 Proof. vm_compute. reflexivity. Qed.
